@@ -5,7 +5,10 @@ import (
 	"context"
 	"errors"
 	"fmt"
+	"runtime"
 	"strings"
+	"sync"
+	"sync/atomic"
 
 	wire "github.com/jeroenrinzema/psql-wire"
 	"github.com/jeroenrinzema/psql-wire/pkg/buffer"
@@ -22,8 +25,8 @@ type c01 struct{ base }
 
 func init() {
 	core.Register(c01{base{id: "C01", level: "exploration", quickB: 8, thoroughB: 32,
-		rule: "connections to servers with ClearTextPassword(validator) or a custom failing AuthStrategy; validator outcome (accept / false / (false,error) / (true,error) / (nil ctx,false,error)) is a function of the password; start-up packets optionally carry an accepting password as surplus behind their parameter list; in place of the password message: every frontend type byte, unterminated / empty / sub-minimum / oversized / truncated bodies, immediate EOF; continuations (pipelined in the same segment, or late after the rejection was observed) of Q/P/B/D/E/S/X messages and random bytes; the client never half-closes in non-accepting cases so the server's own Close is observed. Non-trivial = non-accepting case with a continuation; distinct = (strategy, outcome kind, continuation placement, continuation message kinds).",
-		need:        []string{"rejected_with_pipelined_continuation", "rejected_with_late_continuation", "accepted_sessions_probed", "malformed_password_messages", "validator_errors", "server_close_observed"},
+		rule:        "connections to servers with ClearTextPassword(validator) or a custom failing AuthStrategy; validator outcome (accept / false / (false,error) / (true,error) / (nil ctx,false,error)) is a function of the password; start-up packets optionally carry an accepting password as surplus behind their parameter list; in place of the password message: every frontend type byte, unterminated / empty / sub-minimum / oversized / truncated bodies, immediate EOF; continuations (pipelined in the same segment, or late after the rejection was observed) of Q/P/B/D/E/S/X messages and random bytes; the client never half-closes in non-accepting cases so the server's own Close is observed. Groups of 2-11 connections authenticate at the same time with accepting and rejecting passwords of equal length while the validator yields before deciding. Non-trivial = non-accepting case with a continuation; distinct = (strategy, outcome kind, continuation placement, continuation message kinds).",
+		need:        []string{"concurrent_authentication_groups", "rejected_with_pipelined_continuation", "rejected_with_late_continuation", "accepted_sessions_probed", "malformed_password_messages", "validator_errors", "server_close_observed"},
 		assumptions: append([]string{"an ErrorResponse after a validator error or a malformed message is allowed but not required; after validator=false an ErrorResponse with SQLSTATE class 28 is required"}, commonAssumptions...)}})
 }
 
@@ -43,9 +46,18 @@ func (k c01case) sig() string {
 
 type c01val struct{ DB, User, PW string }
 
+// c01slow: the validator takes its time (yields) before it looks at the password it was handed, as a
+// validator does that asks a backend; set while several connections authenticate at once.
+var c01slow atomic.Bool
+
 func c01validator(ctx context.Context, database, username, password string) (context.Context, bool, error) {
 	c := hs.ConnOf(ctx)
 	c.CB("validate", c01val{DB: strings.Clone(database), User: strings.Clone(username), PW: strings.Clone(password)})
+	if c01slow.Load() {
+		for i := 0; i < 20; i++ {
+			runtime.Gosched()
+		}
+	}
 	switch {
 	case strings.HasPrefix(password, "ok:"):
 		return ctx, true, nil
@@ -194,6 +206,46 @@ func (ch c01) Run(c *core.Ctx) {
 		if c.NViol() >= 10 {
 			return
 		}
+	}
+	// several connections authenticate at the same time (accepting and rejecting credentials mixed,
+	// the validator yields before it decides): every connection is judged exactly as when alone
+	groups := 40
+	if c.Tier == "thorough" {
+		groups = 3000
+	}
+	c01slow.Store(true)
+	defer c01slow.Store(false)
+	for g := 0; g < groups; g++ {
+		if !c.Begin(5000000+g) || c.NViol() >= 10 {
+			continue
+		}
+		rng := core.NewRng(c.Seed, "C01g", c.Batch, g)
+		var wg sync.WaitGroup
+		pwlen := 3 + rng.Intn(12)
+		for m := 2 + rng.Intn(10); m > 0; m-- {
+			k := ch.gen(rng)
+			k.Strategy = "cleartext"
+			k.Kind = core.Pick(rng, []string{"accept", "reject", "reject", "fail"})
+			// passwords of equal length (a shared buffer of that size would be overwritten in full)
+			body := rng.Ident(pwlen)
+			switch k.Kind {
+			case "accept":
+				k.Password = "ok:" + body
+			case "fail":
+				k.Password = "err:" + body[1:]
+			default:
+				k.Password = "no:" + body
+			}
+			k.Cont = core.Pick(rng, []string{"none", "pipelined", "late"})
+			kr := core.NewRng(c.Seed, "C01gc", g, m)
+			wg.Add(1)
+			go func() {
+				defer wg.Done()
+				ch.runCase(c, envs["cleartext"], k, kr, probe)
+			}()
+		}
+		wg.Wait()
+		c.Count("concurrent_authentication_groups", 1)
 	}
 }
 
